@@ -13,11 +13,13 @@ package main
 
 import (
 	"encoding/json"
+	"fmt"
 	"go/ast"
 	"go/types"
 	"os"
 	"path/filepath"
 	"sort"
+	"strings"
 
 	"golang.org/x/tools/go/ssa"
 )
@@ -62,7 +64,7 @@ func (w *World) namedLocals(fn *ssa.Function) []localSig {
 				return true
 			}
 			if v, ok := info.Defs[x].(*types.Var); ok && !v.IsField() {
-				out = append(out, localSig{Name: x.Name, Type: types.TypeString(v.Type(), func(p *types.Package) string { return p.Path() })})
+				out = append(out, localSig{Name: x.Name, Type: typeKey(v.Type())})
 			}
 		}
 		return true
@@ -317,7 +319,11 @@ func (f *frame) smallHelper(callee *ssa.Function) bool {
 	}
 	n := 0
 	for _, b := range callee.Blocks {
-		n += len(b.Instrs)
+		for _, in := range b.Instrs {
+			if _, dbg := in.(*ssa.DebugRef); !dbg {
+				n++
+			}
+		}
 		for _, s := range b.Succs {
 			if s.Index <= b.Index && s.Dominates(b) {
 				return false // a loop
@@ -334,5 +340,37 @@ func (f *frame) smallHelper(callee *ssa.Function) bool {
 			}
 		}
 	}
-	return n <= 120
+	return n <= 200
+}
+
+// typeKey prints a type without the parameter names of function types (renaming a closure's parameters must not
+// make the variable that holds the closure look like a different variable).
+func typeKey(t types.Type) string {
+	q := func(p *types.Package) string { return p.Path() }
+	tuple := func(tp *types.Tuple) string {
+		var parts []string
+		for i := 0; i < tp.Len(); i++ {
+			parts = append(parts, typeKey(tp.At(i).Type()))
+		}
+		return strings.Join(parts, ",")
+	}
+	switch u := t.(type) {
+	case *types.Signature:
+		v := ""
+		if u.Variadic() {
+			v = "..."
+		}
+		return "func" + v + "(" + tuple(u.Params()) + ")(" + tuple(u.Results()) + ")"
+	case *types.Pointer:
+		return "*" + typeKey(u.Elem())
+	case *types.Slice:
+		return "[]" + typeKey(u.Elem())
+	case *types.Array:
+		return fmt.Sprintf("[%d]%s", u.Len(), typeKey(u.Elem()))
+	case *types.Map:
+		return "map[" + typeKey(u.Key()) + "]" + typeKey(u.Elem())
+	case *types.Chan:
+		return fmt.Sprintf("chan%d %s", u.Dir(), typeKey(u.Elem()))
+	}
+	return types.TypeString(t, q)
 }
